@@ -9,7 +9,9 @@
 #include <vector>
 #include <utility>
 static std::vector<std::pair<__int128, __int128>> g_fed;
-#define PGM_INDEX_VERIF_ADD_POINT(x, y) g_fed.push_back({(__int128)(x), (__int128)(y)})
+#define PGM_INDEX_VERIF_ADD_POINT(x, y) do { _Pragma("omp critical (pgmv_fed)") g_fed.push_back({(__int128)(x), (__int128)(y)}); } while (0)
+#include <algorithm>
+#include <omp.h>
 #include "common.hpp"
 #include "pgm/piecewise_linear_model.hpp"
 
@@ -118,6 +120,69 @@ static void check_chunks(const std::vector<K> &data, size_t eps, const std::vect
             fail("C04 consecutive segment starts are at most 2*epsilon ranks apart"); return; }
 }
 
+
+// The REAL chunked builder (make_segmentation_par, n >= 2^15, 2..8 threads) on seam shapes: a duplicate run that starts before a chunk
+// boundary and ends right before it / inside the chunk / one or two slots before the chunk's end / at its end / in the next chunk.
+// Checked: segments in increasing first-key order; the first occurrence of every distinct key was fed at its rank; the reported line of
+// the covering segment is within epsilon + 1/2 of it.  (The shape "last chunk entirely inside the final run" is known finding D15 and is
+// not generated here: it is reported by pgm_static_link.)
+template<typename K>
+static void check_par(const std::vector<K> &data, size_t eps, int threads, const std::string &cfg, const std::string &shape) {
+    using CS = typename pgm::internal::OptimalPiecewiseLinearModel<K, size_t>::CanonicalSegment;
+    size_t n = data.size();
+    ++R.cases;
+    auto fail = [&](const std::string &what) {
+        if (R.seen.insert(cfg + "|" + what.substr(0, 28)).second)
+            R.violation(cfg + ": " + what, "{\"config\": \"" + cfg + "\", \"epsilon\": " + std::to_string(eps) + ", \"n\": " + std::to_string(n) + ", \"threads\": " + std::to_string(threads) + ", \"shape\": \"" + shape + "\"}");
+    };
+    std::vector<CS> segs;
+    g_fed.clear();
+    omp_set_num_threads(threads);
+    pgm::internal::make_segmentation_par(n, eps, [&](size_t i) { return data[i]; }, [&](const CS &cs) { segs.push_back(cs); });
+    std::sort(g_fed.begin(), g_fed.end());
+    for (size_t s = 1; s < segs.size(); ++s) if (!(segs[s - 1].get_first_x() < segs[s].get_first_x())) { fail("C03 segments are not emitted in increasing first-key order (chunked builder)"); return; }
+    size_t t = 0, s = 0;
+    for (size_t i = 0; i < n; ++i)
+        if (i == 0 || data[i] != data[i - 1]) {
+            while (t < g_fed.size() && (g_fed[t].first < (I) data[i])) ++t;
+            if (t == g_fed.size() || g_fed[t].first != (I) data[i] || g_fed[t].second != (I) i) { fail("C03 the first occurrence of key " + vl::num(data[i]) + " (rank " + std::to_string(i) + ") was not fed by the chunked builder"); return; }
+            while (s + 1 < segs.size() && segs[s + 1].get_first_x() <= data[i]) ++s;
+            auto [slope, icpt] = segs[s].get_floating_point_segment(segs[s].get_first_x());
+            long double err = slope * (long double) ((I) data[i] - (I) segs[s].get_first_x()) + (long double) icpt - (long double) i;
+            if (err < 0) err = -err;
+            if (err > (long double) eps + 0.5L + 1e-6L * (1 + (long double) i)) { fail("C03 reported (slope, intercept) of the covering segment is more than epsilon + 1/2 away from the first occurrence of key " + vl::num(data[i]) + " (chunked builder)"); return; }
+        }
+}
+
+template<typename K> static void run_par(const std::string &kname, const std::string &tier) {
+    if (sizeof(K) < 4) return;
+    for (size_t n : {size_t(1) << 15, size_t(40001)})
+        for (int threads : {2, 4, 8}) {
+            size_t par = std::min<size_t>(std::min<size_t>(omp_get_num_procs(), threads), 20);
+            if (par < 2) continue;
+            size_t chunk = n / par;
+            for (size_t eps : {size_t(0), size_t(8)}) {
+                std::string cfg = "make_segmentation_par<" + kname + "> epsilon=" + std::to_string(eps);
+                for (size_t c = 1; c < par; ++c) {
+                    if (tier != "thorough" && par > 2 && c != 1 && c != par - 1) continue;
+                    size_t b = c * chunk, cend = c == par - 1 ? n : b + chunk;
+                    long ends[] = {long(b) - 1, long(b), long(b) + 1, long(cend) - 3, long(cend) - 2, long(cend) - 1, long(cend), long(cend) + 1};
+                    for (long e : ends)
+                        for (size_t before : {size_t(1), size_t(3), size_t(200)}) {
+                            if (e < 1 || size_t(e) >= n - 1 || b < before + 1) continue;
+                            size_t sdup = b - before;            // the run occupies [sdup, e]
+                            if (size_t(e) <= sdup) continue;
+                            std::vector<K> d(n);
+                            K v = 5;
+                            for (size_t i = 0; i < n; ++i) { if (i > 0 && !(i > sdup && i <= size_t(e))) v += K(1 + (i * 7) % 5); d[i] = v; }
+                            ++R.distinct;
+                            check_par<K>(d, eps, threads, cfg, "n=" + std::to_string(n) + " chunk=" + std::to_string(chunk) + " run=[" + std::to_string(sdup) + "," + std::to_string(e) + "] boundary=" + std::to_string(b));
+                        }
+                }
+            }
+        }
+}
+
 template<typename K> static void run(const std::string &kname, const std::string &tier, uint64_t seed) {
     std::mt19937_64 rng(seed);
     size_t maxlen = tier == "thorough" ? 8 : 6;
@@ -153,5 +218,7 @@ int main(int argc, char **argv) {
     run<uint32_t>("uint32_t", tier, seed + 2);
     run<int16_t>("int16_t", tier, seed + 3);
     run<uint8_t>("uint8_t", tier, seed + 4);
+    run_par<uint64_t>("uint64_t", tier);
+    run_par<uint32_t>("uint32_t", tier);
     return R.finish(false);
 }
